@@ -783,21 +783,22 @@ out_threads:
 static int confirm_stuck(char *buf, size_t len)
 {
 	char ph[56];
-	int sleeping = 0;
+	int sleeping = 0, dstate = 0;
 	struct rq_snap rq0;
 	memcpy(ph, G.shp->phase, sizeof(ph));
 	ph[sizeof(ph) - 1] = 0;
 	rq_snapshot(getpid(), &rq0);
 	for (int i = 0; i < 3; i++) {
 		sleeping += thread_sleeping(getpid(), g_forker_tid);
+		dstate += count_tasks_state(getpid(), 'D');
 		usleep(400000);
 	}
 	int starved = rq_starved_permille(getpid(), &rq0);
 	/* phase is "<role>:<step>", role = as-parent (before the fork) / parent (after it) */
 	snprintf(buf, len, "hang:fork:%s", ph);
-	fprintf(stderr, "forkh: no progress in phase %s; forking thread blocked at %d/3 samples; max CPU starvation %d per mille\n", ph,
-		sleeping, starved);
-	return sleeping == 3 && starved < 250;
+	fprintf(stderr, "forkh: no progress in phase %s; forking thread blocked at %d/3 samples; max CPU starvation %d per mille; %d tasks in uninterruptible sleep\n", ph,
+		sleeping, starved, dstate);
+	return sleeping == 3 && starved < 250 && !dstate;
 }
 
 static long g_scenarios;
@@ -849,7 +850,8 @@ int main(int argc, char **argv)
 	vp_user_hook = user_hook;
 	rq_exclude = app_is_tid;
 	snprintf(g_root_shp.phase, sizeof(g_root_shp.phase), "init");
-	vp_watchdog_start((uint64_t) vp_arg_long("stall-ms", 21000), confirm_stuck);
+	/* twice the child-observation interval: a stuck child is always decided by wait_child() first */
+	vp_watchdog_start(2 * (uint64_t) vp_arg_long("stall-ms", 21000), confirm_stuck);
 	if (forker_thread) {
 		pthread_t t;
 		if (pthread_create(&t, NULL, forker_main, NULL))
